@@ -17,6 +17,30 @@ Proof. unfold tick. rewrite get_setc. reflexivity. Qed.
 Lemma hb_own_tick c t m : wt m = t -> we m = get (tick c t) t -> hb m (tick c t).
 Proof. unfold hb. intros -> ->. lia. Qed.
 
+Definition J10P (s : st) : Prop :=
+  forall c p, lend (T s c) = S p ->
+    started (T s c) = true /\ p <> c /\ refs (T s p) > 0 /\ lend (T s p) = 0 /\ excl (T s p) = false
+    /\ cle (Wc s) (clk (T s c)).
+(* one thread's local state changes, its clock grows, it keeps its borrowing status, the write clock is untouched, and
+   if it is lending it keeps a reference and stays non-exclusive *)
+Lemma J10_upd s t x' M R l :
+  Inv s -> t < length (ths s) -> lend x' = lend (T s t) -> started x' = true -> cle (clk (T s t)) (clk x') ->
+  ((exists c, lend (T s c) = S t) -> refs x' > 0 /\ excl x' = false) ->
+  J10P {| msgs := M; Wc := Wc s; Rc := R; live := l; ths := upd (ths s) t x' |}.
+Proof.
+  intros I Ht Hl Hst Hcc Hlender c p. rewrite !T_upd by exact Ht. cbn [Wc].
+  destruct (Nat.eqb_spec c t) as [->|Hct].
+  - rewrite Hl. intros E. destruct (J10 s I t p E) as (_ & Hpt & Hr & Hlp & Hep & HW).
+    destruct (Nat.eqb_spec p t) as [->|_]; [congruence|].
+    split; [exact Hst|]. split; [exact Hpt|]. split; [exact Hr|]. split; [exact Hlp|]. split; [exact Hep|].
+    eapply cle_trans; [exact HW|exact Hcc].
+  - intros E. destruct (J10 s I c p E) as (Hsc & Hpc & Hr & Hlp & Hep & HW).
+    destruct (Nat.eqb_spec p t) as [->|_].
+    + destruct (Hlender (ex_intro _ c E)) as (Hr' & He').
+      split; [exact Hsc|]. split; [exact Hpc|]. split; [exact Hr'|]. split; [congruence|]. split; [exact He'|exact HW].
+    + auto 10.
+Qed.
+
 Ltac pw_rw := repeat rewrite ?get_setc, ?get_tick, ?get_join, ?get_single, ?get_nil, ?Nat.eqb_refl.
 Ltac pw_case := repeat match goal with |- context[Nat.eqb ?a ?b] => destruct (Nat.eqb_spec a b); subst end.
 Ltac pw :=
@@ -40,11 +64,12 @@ Proof.
   destruct (cleb (Wc s) (clk (T s t))) eqn:HW; cbn [negb] in H; [|discriminate].
   injection H as <-.
   set (x' := {| clk := tick (clk (T s t)) t; pend := pend (T s t); refs := refs (T s t);
-                excl := excl (T s t); mustfree := mustfree (T s t); started := true |}).
+                excl := excl (T s t); mustfree := mustfree (T s t); started := true; lend := lend (T s t) |}).
   assert (HT : forall M W R l u, T {| msgs := M; Wc := W; Rc := R; live := l; ths := upd (ths s) t x' |} u
                          = if Nat.eqb u t then x' else T s u) by (intros; apply T_upd; auto).
   assert (Htot : total (upd (ths s) t x') = total (ths s)).
   { pose proof (total_upd (ths s) t x' Ht). unfold T, getth in *. cbn [refs x'] in H. subst x'; cbn [refs] in *. lia. }
+  assert (Hcc : cle (clk (T s t)) (clk x')) by (cbn [clk x']; apply cle_tick).
   constructor; cbn [msgs Wc Rc live ths]; unfold hdm; cbn [msgs].
   - intros Hl'. destruct (J1 s I Hl) as [Hne Hv]. split; [auto|]. rewrite Htot. exact Hv.
   - intros u. rewrite HT. destruct (Nat.eqb_spec u t) as [->|Hne]; cbn [refs clk x'].
@@ -52,11 +77,13 @@ Proof.
     + apply (J2 s I u).
   - intros _ u. rewrite get_setc. destruct (Nat.eqb_spec u t) as [->|Hne].
     + right. left. exists t. rewrite HT, Nat.eqb_refl. cbn [refs clk x']. split; [lia|lia].
-    + destruct (J3 s I Hl u) as [H3|[[h [Hh H3]]|[h [Hm H3]]]]; [left; exact H3| |].
+    + destruct (J3 s I Hl u) as [H3|[[h [Hh H3]]|[[h [Hm H3]]|[h [Hb H3]]]]]; [left; exact H3| | |].
       * right. left. exists h. rewrite HT. destruct (Nat.eqb_spec h t) as [->|Hne']; cbn [refs clk x'].
         -- split; [lia|]. rewrite get_tick. destruct (Nat.eqb_spec u t); [lia|exact H3].
         -- auto.
       * exfalso. exact (mustfree_no_refs s h t I Hm Hr).
+      * right. right. right. exists h. rewrite HT. destruct (Nat.eqb_spec h t) as [->|Hne']; cbn [lend clk x']; [|auto].
+        split; [exact Hb|]. specialize (Hcc u). cbn [clk x'] in Hcc. lia.
   - intros u. rewrite HT. destruct (Nat.eqb_spec u t) as [->|Hne]; cbn [mustfree clk pend x'].
     + intros Hm. destruct (J4 s I t Hm) as (_ & H0 & _). unfold T, getth in Hr. pose proof (total_ge (ths s) t). lia.
     + intros Hm. destruct (J4 s I u Hm) as (_ & H0 & _). unfold T, getth in Hr. pose proof (total_ge (ths s) t). lia.
@@ -76,4 +103,5 @@ Proof.
     + discriminate.
     + apply (J8 s I u).
   - intros _ H0. rewrite Htot in H0. pose proof (total_ge (ths s) t). unfold T, getth in *. lia.
+  - apply J10_upd; auto. intros (c & Hc). destruct (J10 s I c t Hc) as (_ & _ & Hr' & _ & He' & _). auto.
 Qed.
